@@ -103,6 +103,7 @@ InitState(cfg) ==
      D0 |-> [d \in {RootId} |-> NewDeme(0, NoDeme, 0)],      \* deme table at the beginning of the step
      stepCalls |-> 0, steps |-> 0,
      fwd |-> 0, refused |-> 0,                                \* objective invocations / refusals of the budget wrapper
+     gscAt |-> -1,                                            \* value of `steps` when the global condition was first observed true
      ban |-> {},                                              \* trace validation: demes that must not be created any more
      pendingInit |-> <<RootId>>,                              \* demes constructed, initial evaluations pending
      roundPart |-> {}, roundFrom |-> {}, roundNew |-> {}, rounds |-> 0]
@@ -134,7 +135,7 @@ DoChildInit(st, c, k) == [Account(st, c, k) EXCEPT !.pendingInit = Tail(@),
 (* ---- run(): consult at the loop head, begin the step ------------------- *)
 EnLoopCheck(st) == st.pc = "loop" /\ st.pendingInit = <<>>
 DoLoopCheck(st, v) ==
-    IF v THEN [st EXCEPT !.pc = "done", !.gscSeen = TRUE]
+    IF v THEN [st EXCEPT !.pc = "done", !.gscSeen = TRUE, !.gscAt = IF @ = -1 THEN st.steps ELSE @]
     ELSE Norm([st EXCEPT !.pc = "meta", !.mc = @ + 1, !.steps = @ + 1,
                          !.queue = Reverse(ActiveSeq(st)), !.cur = NoDeme, !.gen = 0, !.await = "-",
                          !.D0 = st.D, !.stepCalls = 0])
@@ -164,7 +165,8 @@ Commit(st, d)   == IF Eng(st, d) \in ShotEngines THEN st
 DoGenGsc(st, d, v, selfStop) ==
     IF v \/ selfStop
     THEN Norm([Commit(st, d) EXCEPT !.D[d].active = FALSE, !.D[d].why = IF v THEN "gsc" ELSE "self",
-                                    !.cur = NoDeme, !.await = "-", !.gscSeen = @ \/ v])
+                                    !.cur = NoDeme, !.await = "-", !.gscSeen = @ \/ v,
+                                    !.gscAt = IF v /\ @ = -1 THEN st.steps ELSE @])
     ELSE IF st.gen < GensOf(st, d)
          THEN [st EXCEPT !.await = "-"]
          ELSE [Commit(st, d) EXCEPT !.await = "lsc"]
@@ -184,7 +186,8 @@ DoLocalRun(st, d, k) ==
 
 (* ---- run_step(): consult after the metaepoch ---------------------------- *)
 EnPostGsc(st) == st.pc = "meta" /\ st.cur = NoDeme /\ st.queue = <<>>
-DoPostGsc(st, v) == IF v THEN [st EXCEPT !.pc = "loop", !.gscSeen = TRUE] ELSE [st EXCEPT !.pc = "sprout"]
+DoPostGsc(st, v) == IF v THEN [st EXCEPT !.pc = "loop", !.gscSeen = TRUE, !.gscAt = IF @ = -1 THEN st.steps ELSE @]
+                    ELSE [st EXCEPT !.pc = "sprout"]
 
 (* ---- one sprouting round.  S: sequence of <<parent id, n>> in the order  *)
 (* the mechanism returned them; children are created parent by parent      *)
@@ -362,6 +365,11 @@ G_ClockInSync(st)   == AtBoundary(st) /\ ~HibOn(st) => \A d \in Ids(st) : st.D[d
 \* ... and therefore the raw distance to the last sprout is never negative (it can be with hibernation: a deme
 \* that slept lags behind the start metaepochs of its later children - the defect repaired by 7ee42ca)
 G_SinceSproutRawNonNeg(st) == ~HibOn(st) => \A d \in Ids(st) : st.D[d].active => SinceSproutRaw(st, d) >= 0
+\* Caller-driven stepping (run_step() called on although the global condition holds): one complete step after the
+\* condition was first observed true, every deme that is not asleep has stopped - and nothing was sprouted meanwhile
+\* (C05_NoSproutAfterGsc); a hibernating deme is never run and therefore never stops.
+G_WoundDownOneStepLater(st) ==
+    st.gscSeen /\ AtBoundary(st) /\ st.steps >= st.gscAt + 1 => \A d \in Ids(st) : st.D[d].active => Asleep(st, d)
 G_SinceSproutBounded(st)   == \A d \in Ids(st) : SinceSprout(st, d) >= 0 /\ SinceSprout(st, d) <= st.D[d].me
 
 =============================================================================
